@@ -11,7 +11,7 @@ CHECKS = {
    note="trusts rowan's text()/text_range(); explores short exhaustive + structured random inputs, not all strings",
    technique="property-based testing: round-trip oracle over exhaustive token-class sequences and grammar/mutation generators"),
  "C02": dict(cat="exploration", design="§5 C02",
-   text="Totality oracle (no panic/abort via catch_unwind + supervisor, deterministic step budget from the verif hook, linear work bound 24*(max(raw lexical tokens, tree tokens, lines)+1)+256, well-formed error ranges/messages) over C01's space (which includes 15 nesting shapes up to depth 250, 10^4-fold token repetition and every non-nesting lexeme repeated 150000 times on a 512 KiB stack) plus unterminated constructs at every token boundary.",
+   text="Totality oracle (no panic/abort via catch_unwind + supervisor, deterministic step budget from the verif hook, linear work bound 24*(max(raw lexical tokens, tree tokens, lines)+1)+256, well-formed error ranges/messages) over C01's space (which includes 15 nesting shapes up to depth 250, 10^4-fold token repetition and every non-nesting lexeme repeated 150000 times on a 512 KiB stack) plus unterminated constructs at every token boundary; family time-scaling: ten repeated units (statements with and without syntax errors, garbage, error-riddled values), each parsed at n=600 and 16n repetitions - thread CPU time may grow at most 64-fold unless the long parse stays under two seconds (two rounds, best of three for the short text).",
    note="step counter hook counts lexer tokens and opened nodes; 256 MiB worker stacks (the server's 2 MiB stacks are not asserted); nesting > 256 skipped as documented non-goal",
    technique="property-based testing / fuzzing with a deterministic step-budget hook"),
  "C10": dict(cat="exploration", design="§5 C10",
@@ -19,11 +19,11 @@ CHECKS = {
    note="RefPos is the trusted reference; offsets strictly inside a CRLF pair are exempt from the round-trip clause, columns inside a surrogate pair and lines past the end are unspecified and skipped",
    technique="exhaustive small-scope enumeration + random texts against a reference model (differential)"),
  "C14": dict(cat="exploration", design="§5 C14",
-   text="Differential against RefLexer (written from the TableGen Programmer's Reference) on 500k generated sequences per quick run of spec-level token instances sampled over each class's regular language with boundary cases, joined by every separator kind (including nested block comments with random bodies over the delimiter characters, and no separator where the reference split is unchanged), the same differential on raw generated programs and the 47 real files, plus an exhaustive vocabulary table (every keyword, operator and punctuation mark lexes alone to a distinct non-Id kind).",
+   text="Differential against RefLexer (written from the TableGen Programmer's Reference) on 500k generated sequences per quick run of spec-level token instances sampled over each class's regular language with boundary cases, joined by every separator kind (including nested block comments with random bodies over the delimiter characters, and no separator where the reference split is unchanged; comments with runs of stars before the closer; trivia behind the last token, so that a comment or string may end with the input), the same differential on raw generated programs and the 47 real files, plus an exhaustive vocabulary table (every keyword, operator and punctuation mark lexes alone to a distinct non-Id kind).",
    note="RefLexer is the trusted reference for boundaries; kinds are checked by class membership, not by name",
    technique="property-based testing: generated token sequences, differential against a reference lexer"),
  "C15": dict(cat="exploration", design="§5 C15",
-   text="Exhaustive enumeration of all directive/marker sequences up to length 6 (thorough 7) over two macro names, evaluated by a reference preprocessor (RefPP): for well-nested inputs the delivered non-trivia tokens must be exactly the selected markers with zero errors; unterminated conditionals and nameless directives must be reported. Random nestings to depth 6 with CRLF and trailing comments; the same with lines of text that is not TableGen (unterminated strings, code fragments and comments, mid-line directives) placed in disabled regions; conditional regions embedded between the statements of generated programs (ide level: no declaration and no diagnostic from disabled text).",
+   text="Exhaustive enumeration of all directive/marker sequences up to length 6 (thorough 7) over two macro names, evaluated by a reference preprocessor (RefPP): for well-nested inputs the delivered non-trivia tokens must be exactly the selected markers with zero errors; unterminated conditionals and nameless directives must be reported. Random nestings to depth 6 with CRLF and trailing comments (after a blank and glued to the directive word or macro name); the same with lines of text that is not TableGen (unterminated strings, code fragments and comments, mid-line directives) placed in disabled regions; conditional regions embedded between the statements of generated programs (ide level: no declaration and no diagnostic from disabled text).",
    note="RefPP is the trusted reference; inputs with stray #else/#endif are not asserted",
    technique="exhaustive small-scope enumeration against a reference evaluator"),
  "C03": dict(cat="exploration", design="§5 C03",
@@ -55,11 +55,11 @@ CHECKS = {
    note="the generator's scoping rules were audited against llvm-tblgen-14; uses of a field after a let override may resolve to the declaration or an override identifier; reference sets of overridden fields are not asserted",
    technique="property-based testing with a by-construction oracle (scope-tracking program generator)"),
  "C13": dict(cat="fault_enumeration", design="§5 C13",
-   text="Soundness: 20000 well-formed SEM programs per quick run (incl. list pastes, !if over records, defm with class parents, records named after their defm and used as values) must produce no diagnostic in any file, nor may the 18 vendored files that llvm-tblgen-14 accepts as roots (14 LLVM-14 headers such as Target.td and Intrinsics.td, four hand-written backend-style files; LF and CRLF). Completeness: fourteen fault classes (undefined class / multiclass / identifier / field read / field named by a let, missing include, dropped and surplus template argument, required positional arguments removed while named ones stay, type-incompatible value, operator arity +1/-1, deleted token in root / in an included file) are seeded one at a time at a generated eligible site; a diagnostic must intersect the site in the seeded file, and faults in the root must leave the included files clean.",
+   text="Soundness: 20000 well-formed SEM programs per quick run (incl. list pastes, !if over records, defm with class parents, records named after their defm and used as values) must produce no diagnostic in any file, nor may the 18 vendored files that llvm-tblgen-14 accepts as roots (14 LLVM-14 headers such as Target.td and Intrinsics.td, four hand-written backend-style files; LF and CRLF). Completeness: fourteen fault classes (undefined class / multiclass / identifier / field read / field named by a let, missing include, dropped and surplus template argument, required positional arguments removed while named ones stay, type-incompatible value, operator arity +1/-1, deleted token in root / in an included file) are seeded one at a time at a generated eligible site (typed sites: initialisers, template arguments and every operand of the integer operators); a diagnostic must intersect the site in the seeded file, and faults in the root must leave the included files clean.",
    note="well-formedness audited against llvm-tblgen-14 on its feature subset; token deletions restricted to ';', '=' (not before '{') and ':' whose absence is locally detectable; type faults use literals for which no TableGen conversion exists",
    technique="property-based testing + single-fault seeding over generated programs"),
  "C18": dict(cat="exploration", design="§5 C18",
-   text="Outline and folding expectations known by construction from the SEM generator (statement extents, declaring identifiers, template arguments, declared/overridden fields, defset membership incl. nested defsets and blocks inside defsets, forward-declared classes as declarations of their own) compared exactly with document_symbol and folding_range for every file of 25000 programs per quick run.",
+   text="Outline and folding expectations known by construction from the SEM generator (statement extents, declaring identifiers, template arguments, declared/overridden fields, defset membership incl. nested defsets and blocks inside defsets, forward-declared classes as declarations of their own) compared exactly with document_symbol and folding_range for every file of 25000 programs per quick run; exhaustive family unresolved-parent (parent lists of <=3 entries over two classes and an undeclared name, x def/class x override present/absent: the outline keeps every resolvable parent's fields).",
    note="outline entries of defs inside multiclass bodies and of defs named by a paste expression are not asserted",
    technique="property-based testing with a by-construction oracle"),
  "C19": dict(cat="exploration", design="§5 C19",
@@ -79,7 +79,7 @@ CHECKS = {
    note="buffer = disk in this check (C12 covers the difference); idle = all spawned tasks ended + barrier request",
    technique="stateful property-based testing against a from-scratch oracle"),
  "C12": dict(cat="exploration", design="§5 C12",
-   text="Exhaustive enumeration of all sessions of up to 4 (thorough 5) open/change/close/save events and workspace-leaving events (an unrelated third document becomes root; the root drops its include), each with the included document on disk, never saved, and including the root back (include cycle through every edited document), and - up to 3 (thorough 4) events - in a workspace directory reached through a symbolic link, and while another program rewrites both files on disk after every analysed step (buffer variant 0 then being the text on disk: a document opened unmodified), over a root and an included document whose disk and buffer texts differ observably, compared after every step with a reference session model (disk overlaid by open buffers, root = last touched).",
+   text="Exhaustive enumeration of all sessions of up to 4 (thorough 5) open/change/close/save events and workspace-leaving events (an unrelated third document becomes root; the root drops its include), each with the included document on disk, never saved, and including the root back (include cycle through every edited document), and - up to 3 (thorough 4) events - in a workspace directory reached through a symbolic link, in a directory whose name the editor percent-escapes differently from the server's URL library (`+`, `[`, `]`, blank; diagnostics keyed by the decoded URI), and while another program rewrites both files on disk after every analysed step (buffer variant 0 then being the text on disk: a document opened unmodified), over a root and an included document whose disk and buffer texts differ observably, compared after every step with a reference session model (disk overlaid by open buffers, root = last touched).",
    note="a close triggers no analysis; its effect (disk text is the truth again) is checked at the next analysed step",
    technique="exhaustive small-scope enumeration of sessions against a reference model"),
  "C04": dict(cat="exploration", design="§5 C04",
